@@ -3,6 +3,7 @@ import Driver.CmdData
 import Driver.CmdAcct
 import Driver.CmdMatch
 import RQ.ModelF.World
+import RQ.ModelF.WorldApi
 /-! Driver command for the free-running world: one request = one whole run (configuration, starting portfolio, the day events and
 the strategy's calls in order); the reply holds, per input, what was published and the state of every account afterwards. -/
 namespace Driver
@@ -103,6 +104,33 @@ def runSegs (w : World) : List WIn → World × List String
     let (w2, segs) := runSegs w1 rest
     (w2, seg :: segs)
 
+def parseStockApi (s : String) : StockApi :=
+  if s == "order_shares" || s == "order" then .shares else if s == "order_lots" then .lots else if s == "order_value" then .value
+  else if s == "order_percent" then .percent else if s == "order_target_value" then .targetValue
+  else if s == "order_target_percent" then .targetPercent else .orderTo
+
+def rdIds (t : Toks) : List Nat × Toks :=
+  let (n, t) := tk t
+  rdMany (fun t => let (x, t) := tk t; (pN x, t)) (pN n) t
+
+def rdWIn2 (t : Toks) : WIn2 × Toks :=
+  match t with
+  | "K" :: api :: ins :: x :: hl :: lim :: rest =>
+    let (ids, t) := rdIds rest
+    (.api (.stock (parseStockApi api) (pN ins) (pF x) (if pB hl then some (pF lim) else none)) ids, t)
+  | "KF" :: ins :: amount :: ib :: ef :: hl :: lim :: rest =>
+    let (ids, t) := rdIds rest
+    (.api (.future (pN ins) (pF amount) (pB ib) (parseEffect ef) (if pB hl then some (pF lim) else none)) ids, t)
+  | _ => let (i, t) := rdWIn t; (.base i, t)
+
+def runSegs2 (w : World) (ac : ApiCfg) : List WIn2 → World × List String
+  | [] => (w, [])
+  | i :: rest =>
+    let (w1, evs) := w.step2 ac i
+    let seg := joinSp (evs.map shEv ++ ["##", shWorld w1])
+    let (w2, segs) := runSegs2 w1 ac rest
+    (w2, seg :: segs)
+
 def cmdWorld (toks : Toks) : Option String :=
   match toks with
   | "WRUN" :: rest =>
@@ -116,6 +144,21 @@ def cmdWorld (toks : Toks) : Option String :=
                           openOrders := [], auctionOrders := [], finals := [], turnover := [], commMap := [], mkt := [], today := 0,
                           taxRate := 0.0, phase := .before, log := [] }
       let (w, segs) := runSegs w0 ins
+      let ords := (w.finals.reverse ++ w.openOrders ++ w.auctionOrders).map shOrdFull
+      some (joinSp (segs.intersperse ";;" ++ [";;", "ORDERS"] ++ ords.intersperse "," ++ [";;", "LOG", toString w.log.length]))
+  | "WRUN2" :: rest =>
+      let (cfg, t) := rdWCfg rest
+      let (na, t) := tk t
+      let (accts, t) := rdMany rdAcct (pN na) t
+      let (units, t) := tk t; let (stat, t) := tk t; let (si, t) := tk t; let (fi, t) := tk t
+      let (auto, t) := tk t
+      let (ksh, t) := rdIds t
+      let (n, t) := tk t
+      let (ins, _) := rdMany rdWIn2 (pN n) t
+      let w0 : World := { cfg := cfg, pf := { accounts := accts, units := pF units, staticNav := pF stat }, stockIdx := pON si, futIdx := pON fi,
+                          openOrders := [], auctionOrders := [], finals := [], turnover := [], commMap := [], mkt := [], today := 0,
+                          taxRate := 0.0, phase := .before, log := [] }
+      let (w, segs) := runSegs2 w0 { autoSwitch := pB auto, ksh := ksh } ins
       let ords := (w.finals.reverse ++ w.openOrders ++ w.auctionOrders).map shOrdFull
       some (joinSp (segs.intersperse ";;" ++ [";;", "ORDERS"] ++ ords.intersperse "," ++ [";;", "LOG", toString w.log.length]))
   | _ => none
